@@ -32,6 +32,8 @@ B_CRASH = 'h0 in [0,2]; sp,s0,s1 in [1,70000]; target in [1,200000]; crash/fault
 S_CRASH = dict(h0=1, sp=10, s0=66000, s1=5, target=12)
 SWEEP = list(range(1, 61))
 B_READER = 'pack_size <= 2000000; any offset/length inside; ops in {read(n), tell, seek(t,0|1|2)}; |args| <= 2000100'
+B_ZREAD = 'object size n <= 2000000; compressed size total in [2,2000000]; symbolic stream state (pos, consumed c, unconsumed tail u <= 524288, produced p); tape of <= 5 oracle draws'
+S_ZREAD = dict(n=100, total=40, before=1, pos=0, c=0, u=0, a=30, tape=[0, 10, 30])
 B_HANDLES = 'sp,s0,s1 in [1,70000]; first query in {none,has,list,meta,get}; pack, clean symbolic; second query in {has,get,meta,list}'
 
 
@@ -53,7 +55,7 @@ def pack_cells(what, expect=None):
     for smax in (100000, 200000):
         for clean in ('clean', 'keep'):
             name = 'pack_%s_%d_%s' % (what, smax, clean)
-            c = cell(name, 'harness.g_pack', name, (300, 1500), bounds=B_PACK, thorough_only=(smax == 200000))
+            c = cell(name, 'harness.g_pack', name, (540, 1500), bounds=B_PACK, thorough_only=(smax == 200000))
             if expect:
                 c['expect'] = expect
                 c['timeout'] = (120, 300)
@@ -69,7 +71,7 @@ def direct_cells(what, expect=None):
         for pos in (0, 1, 2, 3):
             for nh in ('noholes', 'holes'):
                 name = 'direct_%s_%d_p%d_%s' % (what, smax, pos, nh)
-                c = cell(name, 'harness.g_direct', name, (300, 1500), bounds=B_DIRECT, thorough_only=(smax == 140000))
+                c = cell(name, 'harness.g_direct', name, (540, 1500), bounds=B_DIRECT, thorough_only=(smax == 140000))
                 if expect:
                     if pos or nh == 'holes':
                         continue
@@ -206,10 +208,23 @@ CHECKS = {
             cell('prog3', 'harness.h_reader', 'prog3', (420, 1500), bounds=B_READER + '; programs of 3 operations',
                  samples=[dict(pack_size=50, offset=3, length=20, op1=2, a1=5, op2=3, a2=-2, op3=0, a3=100)]),
             cell('prog_reach', 'harness.h_reader', 'prog_reach', (120, 300), bounds=B_READER, expect='REFUTED'),
+            cell('zread_small', 'harness.h_zread', 'zread_small', (540, 1500), bounds=B_ZREAD + '; 0 <= a <= 524288',
+                 samples=[S_ZREAD], replay_mode='model'),
+            cell('zread_big', 'harness.h_zread', 'zread_big', (540, 1500), bounds=B_ZREAD + '; 524288 < a <= 2100000',
+                 samples=[dict(S_ZREAD, a=600000, tape=[0, 40, 100])], replay_mode='model'),
+            cell('zread_reach', 'harness.h_zread', 'zread_reach', (200, 400), bounds=B_ZREAD, expect='REFUTED'),
         ],
-        functions=['utils.PackedObjectReader.__init__/seek/tell/read/_update_pos'],
-        assumptions=['storage form covered: packed, uncompressed (PackedObjectReader over a pack with neighbours); the '
-                     'streaming decompresser and the loose cache are NOT covered by this check'],
+        functions=['utils.PackedObjectReader.__init__/seek/tell/read/_update_pos',
+                   'utils.ZlibLikeBaseStreamDecompresser.read/_read_compressed/tell'],
+        assumptions=['packed uncompressed form: bounded programs on PackedObjectReader over a pack with neighbours (replayed on '
+                     'a real file); packed compressed form: ONE read(a) step of the streaming decompresser from an arbitrary '
+                     'symbolic stream state (bytes consumed/produced, internal buffer, unconsumed tail up to one chunk) under '
+                     'a nondeterministic zlib contract (vf/vcodec.py: consumed/produced counts chosen by the solver within '
+                     'what zlib documents, incl. zero input consumed when the output limit is hit); at most 2 decompress() '
+                     'calls per step (oracle tape of 5 draws; longer paths are outside the bound); read(-1) is the loop over '
+                     'read(_CHUNKSIZE) steps and is not explored separately (it did not exhaust); decompresser seek, the loose cache '
+                     'and LazyLooseStream are not covered; counterexamples of the zread cells are replayed on the real code '
+                     'over the model codec only (the real-zlib reproduction of F7 is design_probes/real9.py)'],
     ),
     'C08': dict(
         cells=[
@@ -257,9 +272,12 @@ CHECKS = {
                  samples=[dict(left=[1, 3, 5], right=[0, 3, 9])], replay_mode='model'),
             cell('where_key_spec', 'harness.h_merge', 'where_key_spec', (200, 600), bounds='lists len <= 3, left_key',
                  samples=[dict(left=[1, 3], right=[3, 4], tag=7)], replay_mode='model'),
-            cell('where_rejects_unsorted', 'harness.h_merge', 'where_rejects_unsorted', (300, 900),
-                 bounds='int lists len <= 4, at least one not strictly sorted', samples=[dict(left=[2, 1], right=[0])],
-                 replay_mode='model'),
+            cell('rejects_31', 'harness.h_merge', 'rejects_31', (300, 900), bounds='left up to 3 ints, right up to 1, values in [0,3] (the ValueError message formats the offending value: unbounded ints fork on their decimal digits)',
+                 samples=[dict(a=2, b=1, c=3, d=0, nl=3, nr=1)], replay_mode='model'),
+            cell('rejects_13', 'harness.h_merge', 'rejects_13', (300, 900), bounds='left up to 1 int, right up to 3, values in [0,3]',
+                 samples=[dict(a=2, b=2, c=3, d=0, nl=1, nr=3)], replay_mode='model'),
+            cell('rejects_22', 'harness.h_merge', 'rejects_22', (300, 900), bounds='left up to 2 ints, right up to 2, values in [0,3]',
+                 samples=[dict(a=2, b=1, c=3, d=0, nl=2, nr=2)], replay_mode='model'),
             cell('merge_spec', 'harness.h_merge', 'merge_spec', (300, 900), bounds='two sorted unique int lists, len <= 4',
                  samples=[dict(left=[1, 3, 5], right=[0, 3, 9])], replay_mode='model'),
             cell('chunk_spec', 'harness.h_merge', 'chunk_spec', (100, 300), bounds='list len <= 6, size in [1,4]',
@@ -270,13 +288,14 @@ CHECKS = {
             cell('merge_spec4', 'harness.h_merge', 'merge_spec4', (900, 1800), bounds='lists len <= 4', thorough_only=True,
                  samples=[dict(left=[1, 3, 5, 7], right=[0, 3, 9, 11])], replay_mode='model'),
         ] + [
-            cell('bulk_check_v%d' % v, 'harness.g_bulk', 'bulk_check_v%d' % v, (400, 1200),
-                 bounds='obj0 loose, obj1 loose+packed, obj2 packed, one absent key; request of 0..3 picks (any order, '
-                 'repeats); _IN_SQL_MAX_LENGTH in [1,2]; _MAX_CHUNK_ITERATE_LENGTH in [0,3]; view %d of {has_objects, '
-                 'get_objects_content, get_objects_meta skip, get_objects_meta no-skip}' % v,
-                 samples=[dict(s0=5, s1=7, s2=9, r0=3, r1=1, r2=1, nreq=3, in_max=1, chunk_max=1),
-                          dict(s0=5, s1=7, s2=9, r0=0, r1=2, r2=3, nreq=3, in_max=2, chunk_max=3)])
-            for v in range(4)
+            cell('bulk_check_v%d%s' % (v, sfx), 'harness.g_bulk', 'bulk_check_v%d%s' % (v, sfx), (400, 1500),
+                 thorough_only=bool(sfx),
+                 bounds='obj0 loose, obj1 loose+packed, obj2 packed, one absent key; request of 0..%d picks (any order, '
+                 'repeats); _IN_SQL_MAX_LENGTH in [1,2]; _MAX_CHUNK_ITERATE_LENGTH in [0,%d]; view %d of {has_objects, '
+                 'get_objects_content, get_objects_meta skip, get_objects_meta no-skip}' % (3 if sfx else 2, 3 if sfx else 2, v),
+                 samples=[dict(s0=5, s1=7, s2=9, r0=3, r1=1, r2=1, nreq=2, in_max=1, chunk_max=1),
+                          dict(s0=5, s1=7, s2=9, r0=0, r1=2, r2=3, nreq=2, in_max=2, chunk_max=2)])
+            for v in range(4) for sfx in ('', '_3')
         ] + [cell('bulk_reach_v1', 'harness.g_bulk', 'bulk_reach_v1', (120, 300), expect='REFUTED')],
         functions=['utils.detect_where_sorted', 'utils.merge_sorted', 'utils.chunk_iterator',
                    'Container._get_objects_stream_meta_generator (both lookup strategies)', 'Container.has_objects',
